@@ -127,6 +127,17 @@ def check(line, info, stats):
                 stats["down_values_loop"] = stats.get("down_values_loop", 0) + 1
             else:
                 bad.append(("values", "label %d in fiber %d completed with %s without a preceding resume (prev %r)" % (e["l"], e["fid"], e["v"], pv)))
+        if e["l"] in info["each"]:
+            # an iteration of `each` over a fiber starts only after `next` answered non-nil: the generator is suspended
+            # (not finished, not running) at that moment - a loop body never runs for a generator that has just ended
+            pr = last_pre.get((info["each"][e["l"]], e["fid"]))
+            if pr is not None and pr["kind"] == 3 and 0 <= pr["target"] < len(e["snap"]):
+                stats["each_iterations"] = stats.get("each_iterations", 0) + 1
+                gs = st(e["snap"][pr["target"]])
+                if gs in FIN or gs in (NEW, ALIVE):
+                    bad.append(("next", "loop body of `each` (label %d, fiber %d) runs although the iterated fiber %d has status %d" % (e["l"], e["fid"], pr["target"], gs)))
+        if kind in ("yield", "signal", "debug", "Mreturn"):
+            pass            # (DOWN rule above)
         elif kind in ("resume", "cancel", "propagate") or e["l"] in info["each"]:
             # UP: an instruction blocked on a child completes with what the child signalled or returned
             if pv["t"] in ("snd", "ret") and "coerced" not in e["v"]:
